@@ -665,7 +665,8 @@ pub fn p_plan(t: &mut Toks) -> Option<Plan> {
 // ------------------------------------------------------------------------------------------------ SPARQL text
 
 pub fn is_iri(v: &str) -> bool {
-    v.starts_with("urn:")
+    // `rel…` are scheme-less (relative) IRIs: legal in data, but not recognisable as IRIs from their spelling
+    v.starts_with("urn:") || v.starts_with("rel")
 }
 pub fn lex(v: &str) -> String {
     if is_iri(v) {
@@ -991,9 +992,20 @@ pub fn universe(rng: &mut Rng) -> Universe {
     if rng.chance(1, 2) {
         lits.push("10".into());
     }
+    let mut iris: Vec<String> = (0..ni).map(|i| format!("urn:s{}", i)).collect();
+    let mut preds: Vec<String> = (0..np).map(|i| format!("urn:p{}", i)).collect();
+    if rng.chance(1, 3) {
+        iris.push("rel0".into());
+        if rng.chance(1, 2) {
+            iris.push("rel1".into());
+        }
+        if rng.chance(1, 2) {
+            preds.push("relp".into());
+        }
+    }
     Universe {
-        iris: (0..ni).map(|i| format!("urn:s{}", i)).collect(),
-        preds: (0..np).map(|i| format!("urn:p{}", i)).collect(),
+        iris,
+        preds,
         lits,
         graphs: (0..ng).map(|i| format!("urn:g{}", i)).collect(),
         seeds: Vec::new(),
